@@ -36,7 +36,7 @@ class Alt:
         shutil.rmtree(self.dir, ignore_errors=True)
         os.makedirs(self.dir)
         rc, out = sh("rsync -a --exclude .git --exclude '*.lock' --exclude seeded --exclude replays --exclude coverage %s/ %s/" % (ROOT, self.verif))
-        if rc != 0:
+        if rc not in (0, 24):      # 24 = files vanished while copying (a build of the harness going on in /verif): the copy rebuilds
             raise RuntimeError("rsync failed: " + out[-500:])
         # Cargo.lock of the harness is excluded by the pattern above on purpose (*.lock = flock files); copy it
         hl = os.path.join(ROOT, "harness", "Cargo.lock")
